@@ -707,6 +707,20 @@ func (sc *specCtx) evalCall(e *CallE) Val {
 		a := args(1)
 		r := sc.fc.regionIn(sc.st, sc.heap, "chan.closed", "(Array U Bool)")
 		return boolVal(sel(r, a[0].T))
+	case "deref":
+		// deref(p): the value a pointer to a local cell (captured variable) holds
+		a := args(1)
+		var et types.Type
+		es := SU
+		if a[0].GT != nil {
+			if pt, ok := a[0].GT.Underlying().(*types.Pointer); ok {
+				et = pt.Elem()
+				es = sortOfType(et)
+			}
+		}
+		rn, rs := cellRegion(es)
+		r := sc.fc.regionIn(sc.st, sc.heap, rn, rs)
+		return Val{T: sel(r, a[0].T), S: es, GT: et}
 	case "fieldaddr":
 		// fieldaddr(x, f): the address &x.f as passed to methods of the field's type
 		if len(e.Args) != 2 {
